@@ -127,49 +127,53 @@ let rec split_at tok acc = function
   | t :: r when t = tok -> (List.rev acc, r)
   | t :: r -> split_at tok (t :: acc) r
 
+(* a malformed case is outside every precondition ("pre"); a malformed observation is a violation ("bad") *)
 let spec fs obs =
-  try match fs, obs with
-  | "01" :: es, _ ->
+  let obs_bad f = (try f () with Bad | Failure _ | Not_found | Invalid_argument _ -> "bad") in
+  try match fs with
+  | "01" :: es ->
       let l = List.map entry_of_hex es in
       if not (pre_C20_sort l) then "pre" else
-      (match obs with
+      obs_bad (fun () -> match obs with
        | "OK" :: os -> b2s (spec_ok_C20_sort l (List.map entry_of_hex os))
        | _ -> "bad")
-  | "02" :: par :: orc :: es, _ ->
+  | "02" :: par :: orc :: es ->
       let (nc, _, port) = params par in
       let l = List.map entry_of_hex es in
+      let o = bytes_of_hex orc in
       if not (pre_C20_try l) then "pre" else
-      (match obs with
+      obs_bad (fun () -> match obs with
        | "T" :: toks ->
            let (outs, ok) = parse_try port toks in
-           b2s (ok && List.length outs = nc && spec_ok_C20_try l (bytes_of_hex orc) outs)
+           b2s (ok && List.length outs = nc && spec_ok_C20_try l o outs)
        | _ -> "bad")
-  | "03" :: ifs :: es, _ ->
+  | "03" :: ifs :: es ->
       let (fail, il) = ifaces_of_hex ifs in
       let l = List.map entry_of_hex es in
       if l = [] then raise Bad;
       if not (pre_C20_filter l) then "pre" else
-      (match obs with
+      obs_bad (fun () -> match obs with
        | "OK" :: os -> b2s (spec_ok_C20_filter fail il l (List.map entry_of_hex os))
        | _ -> "bad")
-  | "05" :: par :: orc :: ifs :: es, _ ->
+  | "05" :: par :: orc :: ifs :: es ->
       let (nc, _, port) = params par in
       let (fail, il) = ifaces_of_hex ifs in
       let l = List.map entry_of_hex es in
+      let o = bytes_of_hex orc in
       if l = [] then raise Bad;
       if not (pre_C20_filter l && pre_C20_try l) then "pre" else
-      (match obs with
+      obs_bad (fun () -> match obs with
        | ["ALLME"] -> b2s (spec_ok_C20_allme (n_of_int port) fail il l)
        | "P" :: rest ->
            let (l1, rest) = split_at "S" [] rest in
            let (l2, toks) = split_at "T" [] rest in
            let (outs, ok) = parse_try port toks in
            b2s (ok && List.length outs = nc
-                && spec_ok_C20_targets (n_of_int port) fail il l (bytes_of_hex orc)
+                && spec_ok_C20_targets (n_of_int port) fail il l o
                      (List.map entry_of_hex l1) (List.map entry_of_hex l2) outs)
        | _ -> "bad")
-  | _ -> "BADCASE"
-  with Bad -> "bad"
+  | _ -> "pre"
+  with Bad | Failure _ | Not_found | Invalid_argument _ -> "pre"
 
 let () =
   match Sys.argv.(1) with
